@@ -216,6 +216,9 @@ var vC02Progs = []struct {
 	src string
 	ref func(p, q, r int64) (int64, bool) // value, ok (false: error prescribed)
 }{
+	{"&cc = xx + 1; func fs(xx) { return cc }; fs(yy)", func(p, q, r int64) (int64, bool) { return p + 1, true }},
+	{"&cc = xx + 1; func fs(n) { xx = zz; return cc }; fs(1) - cc", func(p, q, r int64) (int64, bool) { return 0, true }},
+	{"&cc = xx * 2; func g2(xx) { return cc + xx }; func g1(xx) { return g2(xx + 1) }; g1(yy)", func(p, q, r int64) (int64, bool) { return p*2 + q + 1, true }},
 	{"xx + yy * zz", func(p, q, r int64) (int64, bool) { return p + q*r, true }},
 	{"(xx + yy) * zz", func(p, q, r int64) (int64, bool) { return (p + q) * r, true }},
 	{"xx - yy - zz", func(p, q, r int64) (int64, bool) { return p - q - r, true }},
